@@ -362,6 +362,58 @@ class Function:
                 return False
             b = n
 
+    def edges_implying(self, cond, outcome=True):
+        """CFG edges (block, successor) on which the i1 value `cond` is known to equal `outcome`: direct conditional
+        branches, and branches on and/or/select/xor combinations of it (a && chain that simplifycfg folded into a
+        select, a negation)"""
+        out = []
+        work = [(cond, outcome)]
+        seen = set()
+        while work:
+            x, want = work.pop()
+            if (x.id, want) in seen:
+                continue
+            seen.add((x.id, want))
+            for u in self.users(x):
+                if u.op == 'br' and 'f' in u.d and u.ops[0].k == 'inst' and u.ops[0].id == x.id:
+                    out.append((u.block, self.bmap[u.d['t'] if want else u.d['f']]))
+                elif u.op == 'and' and want:
+                    work.append((u, True))          # (x & y) true  => x true
+                elif u.op == 'or' and not want:
+                    work.append((u, False))         # (x | y) false => x false
+                elif u.op == 'xor' and any(o.k == 'ci' and o.uval == 1 for o in u.ops):
+                    work.append((u, not want))
+                elif u.op == 'select' and u.ops[0].k == 'inst' and u.ops[0].id == x.id:
+                    # select x, y, false == x && y ; select x, true, y == x || y
+                    if want and u.ops[2].k == 'ci' and u.ops[2].uval == 0:
+                        work.append((u, True))
+                    if not want and u.ops[1].k == 'ci' and u.ops[1].uval == 1:
+                        work.append((u, False))
+                elif u.op == 'select' and want and len(u.ops) == 3 and u.ops[1].k == 'inst' and u.ops[1].id == x.id \
+                        and u.ops[2].k == 'ci' and u.ops[2].uval == 0:
+                    work.append((u, True))          # select c, x, false true => x true
+                elif u.op == 'select' and not want and len(u.ops) == 3 and u.ops[2].k == 'inst' and u.ops[2].id == x.id \
+                        and u.ops[1].k == 'ci' and u.ops[1].uval == 1:
+                    work.append((u, False))
+        return out
+
+    def only_through_edges(self, edges, target):
+        """every path from the entry to block `target` uses one of the given CFG edges"""
+        es = set((a.name, b.name) for a, b in edges)
+        seen = set()
+        st = [self.entry]
+        while st:
+            b = st.pop()
+            if b.name in seen:
+                continue
+            seen.add(b.name)
+            if b is target:
+                return False
+            for s_ in b.succs:
+                if (b.name, s_.name) not in es:
+                    st.append(s_)
+        return True
+
     def reachable_blocks(self, start, avoid=()):
         """blocks reachable from block 'start' (inclusive) without passing
         through blocks in avoid"""
@@ -588,6 +640,58 @@ UNROLL_ARGS = ('-unroll-threshold=4000', '-two-entry-phi-node-folding-threshold=
                '-phi-node-folding-threshold=1000')
 
 
+
+def _prepare_inlining(ll, inline, passes, opt_args):
+    """Rewrites the textual IR so that LLVM's inliner folds helper functions into their callers before the analysis
+    passes run.  clang -O0 marks every function noinline; the attribute is dropped from the attribute groups and put back
+    on the define line of every function the caller wants to KEEP as a function:
+      inline=True            nothing is kept (everything defined in the unit is inlined where it is called)
+      inline=callable        keep(mangled_name, demangled_name, is_internal) -> True keeps the function
+    Inlining is semantics preserving; it only makes a rule see the same straight-line code whether a step is written in
+    place or in a (new) helper function."""
+    with open(ll) as fh:
+        txt = fh.read()
+    txt = re.sub(r'(?m)^(attributes #\d+ = \{.*)$', lambda m: m.group(1).replace(' noinline', ''), txt)
+    if callable(inline):
+        lines = txt.split('\n')
+        defs = []
+        for k, line in enumerate(lines):
+            if line.startswith('define '):
+                m = re.search(r'@("(?:[^"\\]|\\.)*"|[\w.$]+)\(', line)
+                if m:
+                    defs.append((k, m.group(1).strip('"'), ' internal ' in line[:m.start()] or ' private ' in line[:m.start()]))
+        dem = demangle([d[1] for d in defs])
+        for (k, name, internal), d in zip(defs, dem):
+            if inline(name, d, internal):
+                line = lines[k]
+                m = re.search(r'\) (?=[^()]*\{\s*$)', line)     # after the parameter list
+                # function attributes may precede the group reference: "... @f(i32 %0) noinline #0 {"
+                j = line.rfind(')')
+                g = re.search(r' #\d+', line[j:])
+                pos = j + g.start() if g else line.rfind(' {')
+                if ' personality ' in line[j:]:
+                    pos = min(pos, j + line[j:].find(' personality '))
+                lines[k] = line[:pos] + ' noinline' + line[pos:]
+        txt = '\n'.join(lines)
+    with open(ll, 'w') as fh:
+        fh.write(txt)
+    return ('function(mem2reg),cgscc(inline),function(%s)' % passes, list(opt_args) + ['-inline-threshold=100000'])
+
+
+def keep_all_but_new_helpers(known_internal=()):
+    """inline predicate: every function with external/linkonce linkage stays a function; internal (static / anonymous
+    namespace) functions stay only when a rule anchors on them (known_internal, by source name); any other internal
+    function - i.e. a helper introduced by refactoring - is folded into its callers"""
+    known = set(known_internal)
+
+    def keep(name, dem, internal):
+        if not internal:
+            return True
+        base = dem.split('(')[0].split('::')[-1]
+        return name in known or base in known
+    return keep
+
+
 def compile_ir(src, repo, extra_flags=(), out_name=None, passes=OPT_PASSES,
                lang=None, exceptions=False, opt_args=(), inline=False):
     """src -> JSON module (clang -> opt -> irdump). Raises AnalysisBroken on
@@ -608,12 +712,7 @@ def compile_ir(src, repo, extra_flags=(), out_name=None, passes=OPT_PASSES,
     if r.returncode != 0:
         raise AnalysisBroken('clang failed on %s:\n%s' % (src, r.stderr[-3000:]))
     if inline:
-        with open(ll) as fh:
-            txt = fh.read()
-        with open(ll, 'w') as fh:
-            fh.write(re.sub(r'(?m)^(attributes #\d+ = \{.*)$', lambda m: m.group(1).replace(' noinline', ''), txt))
-        passes = 'function(mem2reg),cgscc(inline),function(%s)' % passes
-        opt_args = list(opt_args) + ['-inline-threshold=100000']
+        passes, opt_args = _prepare_inlining(ll, inline, passes, opt_args)
     r = subprocess.run(['opt-14', '-passes=' + passes] + list(opt_args) + ['-S', ll, '-o', oll],
                        capture_output=True, text=True)
     if r.returncode != 0:
@@ -638,7 +737,7 @@ def compile_many(jobs, repo, workers=None):
 
     def one(j):
         return compile_ir(j['src'], repo, j.get('flags', ()), j.get('name'),
-                          lang=j.get('lang'), exceptions=j.get('exceptions', False))
+                          lang=j.get('lang'), exceptions=j.get('exceptions', False), inline=j.get('inline', False))
     with ThreadPoolExecutor(max_workers=workers) as ex:
         return list(ex.map(one, jobs))
 
